@@ -146,7 +146,7 @@ def suite_c07(r, n):
             payload = "%s|%s|%s|%s|%s" % (proto, op, oop or "-", ("%s/%s" % ookey) if ookey else "-", "/".join(acts))
             jobs.append(("ps7", "p%d" % p.pid, "%s/%s" % skey, "%s/%s" % okey, payload))
             line = "g7 %s %s/%s %s %s %s %s %s %s %s" % (defs, okey[0], okey[1], ("%s/%s" % ookey) if ookey else "-", skey[1], op, oop or "-", toks, proto, "/".join(acts))
-            expect = "acts=%s calls=%s" % (",".join(expect_acts), "/".join(expect_calls) if expect_calls else "-")
+            expect = "n=%d acts=%s calls=%s" % (len(expect_calls), ",".join(expect_acts), "/".join(expect_calls) if expect_calls else "-")
             meta.append((p, line, expect, proto, len(names)))
     if not jobs:
         Stat("evaluations", 0); Finish(); return
